@@ -162,10 +162,15 @@ func (m *machine) registerDiskIntrinsics() {
 		if open == nil {
 			panic(engineError("vstub.DiskOpen missing"))
 		}
-		c := callSSA(fr.i, fr, 0, open, []value{args[0]}, nil)
+		res := callSSA(fr.i, fr, 0, open, []value{args[0]}, nil).(tuple)
+		if e, isIface := res[1].(iface); isIface && e.t != nil {
+			// the directory is locked by a store that was never closed
+			var nilp *value
+			return tuple{nilp, res[1]}
+		}
 		cell := zero(fn.Signature.Results().At(0).Type().(*types.Pointer).Elem())
 		p := &cell
-		fr.i.handles[p] = iface{t: open.Signature.Results().At(0).Type(), v: c}
+		fr.i.handles[p] = iface{t: open.Signature.Results().At(0).Type(), v: res[0]}
 		return tuple{p, iface{}}
 	}
 	for _, meth := range []string{"Get", "Put", "Has", "Delete", "Close", "Sync", "GetSize"} {
